@@ -5,6 +5,7 @@ package main
 import (
 	"fmt"
 	"go/ast"
+	"go/parser"
 	"go/constant"
 	"go/printer"
 	"go/token"
@@ -910,7 +911,25 @@ func (ce *CEnv) evalCall(n *ast.CallExpr) (Val, error) {
 				}
 				in = append(in, v.C...)
 			}
-			return Val{T: intT, C: []*Term{UF("fn."+name, BV64, in...)}}, nil
+			// result type: that of the named interface method when it can be resolved (default int)
+			rt, rs := types.Type(intT), BV64
+			if parts := strings.Split(strings.TrimPrefix(name, "iface "), "."); len(parts) >= 2 {
+				tname := strings.Join(parts[:len(parts)-1], ".")
+				if te, perr := parser.ParseExpr(tname); perr == nil {
+					if it, rerr := ce.resolveType(te); rerr == nil {
+						if obj, _, _ := types.LookupFieldOrMethod(it, true, ce.pkg, parts[len(parts)-1]); obj != nil {
+							if fn, ok := obj.(*types.Func); ok {
+								if sig, ok := fn.Type().(*types.Signature); ok && sig.Results().Len() == 1 {
+									if lay := layoutOf(sig.Results().At(0).Type()); len(lay) == 1 {
+										rt, rs = sig.Results().At(0).Type(), lay[0].Sort
+									}
+								}
+							}
+						}
+					}
+				}
+			}
+			return Val{T: rt, C: []*Term{UF("fn."+name, rs, in...)}}, nil
 		case "isenc":
 			a, err := ce.eval(n.Args[0])
 			if err != nil {
